@@ -461,8 +461,7 @@ def run(pid, tier, seed, replay):
         runner.rt = rt
         runner.built = [Prebuilt(cls, d)]
         runner.ni = 3
-        runner.sm, runner.models, runner.cls_of, runner.listeners, runner.user_models = {}, {}, {}, {}, {}
-        runner.inv_tokens = {}
+        runner.init_runtime()
         res_run = runner.run()
         res_run["classes"] = harness.spec_classes(scn)
         scns.append((scn, res_run))
